@@ -14,6 +14,7 @@
 import CelloProofs.Lemmas.SeqRun
 import CelloProofs.Lemmas.SortPerm
 import CelloProofs.Lemmas.SortSorted
+import CelloProofs.Lemmas.SeqTupDistinct
 
 namespace Cello.Seq
 variable {α : Type}
@@ -132,12 +133,52 @@ theorem C04_tuple_iteration_partial [BEq α] (ident : α → Nat) (t : Tup α) (
     (∀ x, t.mem ident x fuel = some (Spec.mem t.items x)) :=
   ⟨Tup.iterFwd_eq ident t hd fuel hf, Tup.iterBwd_eq ident t hd fuel hf, fun x => Tup.mem_eq ident t hd x fuel hf⟩
 
+/-- every operation of the history stores only pointers that the Tuple does not hold at that moment -/
+def FreshRun [BEq α] (ident : α → Nat) : List α → List (Op α) → Prop
+  | _, [] => True
+  | l, op :: ops => FreshOp ident l op ∧ ∀ l', Spec.tupStep l op = some l' → FreshRun ident l' ops
+
+/-- **Tuple: whole histories that never store a pointer twice.** Started from a Tuple with distinct pointers, after every
+    in-range history in which no operation stores a pointer that is already inside, the pointers are still distinct, and
+    forward iteration, backward iteration and `mem` agree with the abstract sequence. -/
+theorem C04_tuple_history_iteration [BEq α] (ident : α → Nat) (ops : List (Op α)) (t : Tup α) (l' : List α)
+    (hd : t.Distinct ident) (hfresh : FreshRun ident t.items ops) (h : Spec.run Spec.tupStep t.items ops = some l') :
+    let r := runOps Tup.step t ops
+    r.1.Distinct ident ∧ r.1.iterFwd ident (l'.length + 1) = some l' ∧
+    r.1.iterBwd ident (l'.length + 1) = some l'.reverse ∧
+    (∀ x, r.1.mem ident x (l'.length + 1) = some (Spec.mem l' x)) := by
+  intro r
+  have hnd : ∀ (ops : List (Op α)) (l : List α), (l.map ident).Nodup → FreshRun ident l ops →
+      Spec.run Spec.tupStep l ops = some l' → (l'.map ident).Nodup := by
+    intro ops
+    induction ops with
+    | nil => intro l hn _ hr; simp [Spec.run] at hr; subst hr; exact hn
+    | cons op ops ih =>
+      intro l hn hf hr
+      simp only [Spec.run] at hr
+      cases hs : Spec.tupStep l op with
+      | none => rw [hs] at hr; simp at hr
+      | some l1 =>
+        rw [hs] at hr; simp only [Option.bind_some] at hr
+        exact ih l1 (tupStep_distinct ident l l1 op hn hf.1 hs) (hf.2 l1 hs) hr
+  have hitems : r.1.items = l' := (C04_refines_list_tuple ops t l' h).2.1
+  have hdist : r.1.Distinct ident := by unfold Tup.Distinct; rw [hitems]; exact hnd ops t.items hd hfresh h
+  have hfuel : r.1.items.length + 1 ≤ l'.length + 1 := by rw [hitems]; exact Nat.le_refl _
+  obtain ⟨g1, g2, g3⟩ := C04_tuple_iteration_partial ident r.1 hdist (l'.length + 1) hfuel
+  rw [hitems] at g1 g2 g3
+  exact ⟨hdist, g1, g2, g3⟩
+
 /-- **F13 refuted witness**: the Tuple `[x, x]` — `foreach` never terminates, whatever the number of steps -/
 theorem C04_tuple_iteration_refuted : ¬ C04_tuple_iteration_statement := by
   intro h
   obtain ⟨fuel, hf⟩ := h id ⟨[7, 7]⟩
   rw [Tup.iterFwd_dup_diverges id 7 fuel] at hf
   cases hf
+
+/-- copy = assign into a fresh object: the copy holds the same sequence (all three types) -/
+theorem C04_copy (a : Arr α) (l : Lst α) (t : Tup α) :
+    a.copy.items = a.items ∧ l.copy.items = l.items ∧ l.copy.Inv ∧ t.copy.items = t.items := by
+  simp [Arr.copy, Arr.assign, Lst.copy, Lst.assign, Lst.concat, Lst.clear, Lst.foldl_push, Lst.Inv, Tup.copy, Tup.assign]
 
 /-! ## rem and sort -/
 
@@ -202,6 +243,20 @@ example : Spec.lstStep [1, 2, 3] (.pushAt 9 3) = none ∧ Spec.tupStep [1, 2, 3]
     Spec.arrStep [1, 2, 3] (.pushAt 9 3) = some [1, 2, 3, 9] := by decide
 
 example : Spec.run Spec.lstStep [1, 2, 3] [.pushAt 9 (-1), .pushAt 7 0, .resize 7, .popAt (-7)] = some [1, 2, 9, 3, 0, 0] := by decide
+
+/-- a fresh in-range Tuple history -/
+example : FreshRun id [10, 20] [.push 30, .pushAt 40 (-1), .rem 20] ∧
+    Spec.run Spec.tupStep [10, 20] [.push 30, .pushAt 40 (-1), .rem 20] = some [10, 40, 30] := by
+  refine ⟨?_, by decide⟩
+  simp [FreshRun, FreshOp, Spec.tupStep, Spec.idx]
+
+/-- a comparison function that meets the hypotheses of `C04_sort_sorted` without being total on the elements:
+    `lt` on the key `v / 256` (the comparator the harness uses to make instability visible) -/
+example : (∀ x y : Int, decide (x / 256 < y / 256) = true → decide (y / 256 < x / 256) = false) ∧
+    (∀ x y z : Int, decide (x / 256 < y / 256) = true → decide (y / 256 < z / 256) = true → decide (x / 256 < z / 256) = true) := by
+  constructor
+  · intro x y h; simp only [decide_eq_true_eq, decide_eq_false_iff_not] at *; omega
+  · intro x y z h1 h2; simp only [decide_eq_true_eq] at *; omega
 
 /-- a Tuple state with distinct pointers -/
 example : (⟨[10, 20, 30]⟩ : Tup Nat).Distinct id := by simp [Tup.Distinct]
